@@ -1326,10 +1326,23 @@ func (fc *funcContext) translateImplicitConversion(expr ast.Expr, desiredType ty
 			// wrap JS object into js.Object struct when converting to interface
 			return fc.formatExpr("new $jsObjectPtr(%e)", expr)
 		}
+		// Arrays and structs are values: the interface must hold its own copy, unless
+		// the operand is a fresh value that nothing else refers to.
+		fresh := false
+		switch astutil.RemoveParens(expr).(type) {
+		case *ast.CompositeLit, *ast.CallExpr:
+			fresh = true
+		}
 		if isWrapped(exprType) {
+			if _, isArray := exprType.Underlying().(*types.Array); isArray && !fresh {
+				return fc.formatExpr("new %1s($clone(%2e, %1s))", fc.typeName(exprType), expr)
+			}
 			return fc.formatExpr("new %s(%e)", fc.typeName(exprType), expr)
 		}
 		if _, isStruct := exprType.Underlying().(*types.Struct); isStruct {
+			if !fresh {
+				return fc.formatExpr("new %1e.constructor.elem($clone(%1e, %2s))", expr, fc.typeName(exprType))
+			}
 			return fc.formatExpr("new %1e.constructor.elem(%1e)", expr)
 		}
 	}
